@@ -21,7 +21,9 @@ RULE = ('random call histories on one decoder state (decode of real-encoder pack
         'zero-length concealment with frame sizes from negative to one second, FEC calls, reset, set-gain, undersized and '
         'zero buffers) at all five rates x {1,2} channels through the 16-bit / 24-bit / float entry points and '
         'opus_decode_native(self_delimited); every inner call of the real control code is recorded and the Lean skeleton '
-        'must reproduce return value, post-state and the inner call sequence with arguments and buffer extents; '
+        'must reproduce return value, post-state and the inner call sequence with arguments and buffer extents, incl. the '
+        'gain pass (once per frame, last, over audiosize*channels samples of the frame buffer; none inside the gain-cleared '
+        'transition call) and the cross-fades, observed through the arithmetic macros of their inline loops; '
         'a case is distinct by (operation, outcome class)')
 NOT_COVERED = [
     'index arithmetic INSIDE silk_Decode / celt_decode_with_ec_dred / resamplers (oracles with monitored contracts; '
